@@ -95,6 +95,16 @@ BlocksOK(X, tab, idx, out) ==
             \A t \in 1..Len(tab[j]) :
                 out[r][idx[j] + t] = (IF tab[j][t] = X[r][j + 1] THEN One ELSE 0)
 
+(* "unchanged" includes the sign of a zero: +0.0 and -0.0 compare equal but are different
+   values (1/x, copysign, the bit pattern tell them apart).  The integer encoding cannot
+   carry the sign, so an event lists the positions <<row, column>> (row 1-based, column
+   0-based) at which the transformed matrix (xnz) and the returned matrix (onz) hold a
+   negative zero; a pass-through column must carry exactly the negative zeros of its source.
+   (Nothing is demanded of the sign of the zeros inside indicator blocks.) *)
+PassThroughSignOK(X, tab, idx, xnz, onz) ==
+    \A j \in (0..(NCols(X) - 1)) \ DOMAIN tab :
+        \A r \in 1..NRows(X) : (<<r, j>> \in xnz) <=> (<<r, idx[j]>> \in onz)
+
 IsOneHot2(X, tab, idx, out) ==
     /\ ShapeOK(X, tab, out)
     /\ PassThroughOK(X, tab, idx, out)
